@@ -515,3 +515,126 @@ def check_crossmemb(facts):
                                     "class-set operation ignores the other operand" % (it_root, recv, t.get("line")), facts.loc(fn, t.get("line")))
     r.floor("membership_tests", n, 6)
     return r
+
+
+# ---- LENARMS / ASCIIBITMAP ------------------------------------------------------------------
+
+def check_lenarms(facts):
+    """Every `match xs.len()` whose arms mention MAX_CHAR_SET_LENGTH covers 1..=MAX before its panic arm."""
+    from . import hirutil as H
+    r = RuleResult("LENARMS", "a case-fold class has between 1 and MAX_CHAR_SET_LENGTH members (TABLES checks the upper bound): every "
+                              "`match <class>.len()` whose catch-all arm panics must accept every length in 1..=MAX_CHAR_SET_LENGTH — "
+                              "an exclusive range or a smaller bound turns a legal class into a compile-time panic; the sibling copies "
+                              "(parser, literal lowering, utf16 emitter) must agree")
+    maxv = (facts.consts.get("insn::MAX_CHAR_SET_LENGTH") or {}).get("int") or (facts.consts.get("insn::MAX_CHAR_SET_LENGTH") or {}).get("eval")
+    if not maxv:
+        r.error("insn::MAX_CHAR_SET_LENGTH not found")
+        return r
+    n = 0
+    for fn, h in sorted(facts.hir.items()):
+        for m in H.find_matches(h["body"], r"^usize$"):
+            sc = m["scrut"]
+            if not (sc.get("k") == "mcall" and sc.get("name") == "len"):
+                continue
+            arms = m["arms"]
+            # only matches whose last arm panics
+            last = arms[-1]
+            txt = str(H.calls_in(last["body"])) + str(H.ctor_paths(last["body"]))
+            if "panic" not in txt:
+                continue
+            uses_max = "MAX_CHAR_SET_LENGTH" in str(m)
+            if not uses_max:
+                continue
+            n += 1
+            covered = set()
+            for a in arms[:-1]:
+                p = a["pat"]
+                for x in (p["pats"] if p["k"] == "or" else [p]):
+                    if x.get("k") == "lit":
+                        covered.add(x["v"])
+                    elif x.get("k") == "range":
+                        lo = (x.get("lo") or {}).get("v")
+                        hi = x.get("hi") or {}
+                        hv = hi.get("v")
+                        if hv is None and "MAX_CHAR_SET_LENGTH" in str(hi):
+                            hv = maxv
+                        if lo is not None and hv is not None:
+                            covered |= set(range(lo, hv + (1 if x.get("incl") else 0)))
+            # arms that panic explicitly for a literal (e.g. `0 => panic!`) do not count as covered
+            for a in arms[:-1]:
+                if "panic" in (str(H.calls_in(a["body"])) + str(H.ctor_paths(a["body"]))):
+                    p = a["pat"]
+                    for x in (p["pats"] if p["k"] == "or" else [p]):
+                        if x.get("k") == "lit":
+                            covered.discard(x["v"])
+            want = set(range(1, maxv + 1))
+            key = "%s match on len()" % fn
+            if want <= covered:
+                r.ok(key, "accepts 1..=%d" % maxv)
+            else:
+                r.fail(key, "lengths %s fall into the panicking arm although a case-fold class may have up to %d members: compiling such a "
+                            "character under /i panics instead of returning" % (sorted(want - covered), maxv), facts.loc(fn, m["arms"][0]["line"]))
+    r.floor("len_matches", n, 2)
+    return r
+
+
+def check_asciibitmap(facts):
+    r = RuleResult("ASCIIBITMAP", "emit::bracket_as_ascii only sets bits below the capacity of AsciiBitmap (8 x its byte array): the early "
+                                  "return that rejects non-ASCII intervals must bound `last` by capacity - 1")
+    a = facts.adts.get("bytesearch::AsciiBitmap")
+    if not a:
+        r.error("bytesearch::AsciiBitmap not found")
+        return r
+    m = re.search(r"\[u8; (\d+)\]", a["variants"][0]["fields"][0]["ty"])
+    if not m:
+        r.error("AsciiBitmap is not a byte array")
+        return r
+    cap = int(m.group(1)) * 8
+    fn = "emit::bracket_as_ascii"
+    if not facts.has_body(fn):
+        r.error("anchor %s not found" % fn)
+        return r
+    b = facts.body(fn)
+    sets = [bb for bb, t in b.iter_calls() if (t.get("callee") or "").endswith("AsciiBitmap::set")]
+    if not sets:
+        r.error("bracket_as_ascii no longer calls AsciiBitmap::set")
+        return r
+    bound = None
+    for bb in sets:
+        for d in b.dom()[bb]:
+            t = b.blocks[d]["t"]
+            if t["k"] != "switch" or t["discr"]["k"] not in ("copy", "move"):
+                continue
+            df = b.single_def(t["discr"]["pl"]["l"])
+            if not (df and df[2] == "assign" and df[3]["rv"]["k"] == "bin" and df[3]["rv"]["op"] in ("Ge", "Gt", "Lt", "Le")):
+                continue
+            op, x, y = df[3]["rv"]["op"], df[3]["rv"]["a"], df[3]["rv"]["b"]
+            def reads_last(o, depth=0):
+                if o["k"] not in ("copy", "move") or depth > 3:
+                    return False
+                if core.proj_fields(o["pl"])[-1:] == ["last"]:
+                    return True
+                dd = b.single_def(o["pl"]["l"]) if not o["pl"]["p"] else None
+                return bool(dd and dd[2] == "assign" and dd[3]["rv"]["k"] in ("use", "cast") and reads_last(dd[3]["rv"]["op"], depth + 1))
+            if y["k"] == "const" and reads_last(x):
+                k = y.get("int")
+                # which edge reaches the set call?
+                false_edge = [tg for v, tg in t["targets"] if v == 0]
+                on_false = bool(false_edge) and bb in b.reach_from(false_edge[0]) and bb not in b.reach_from(t["otherwise"])
+                if op == "Ge" and on_false:
+                    bound = k - 1
+                elif op == "Gt" and on_false:
+                    bound = k
+                elif op == "Lt" and not on_false:
+                    bound = k - 1
+                elif op == "Le" and not on_false:
+                    bound = k
+    key = "%s sets only bits < %d" % (fn, cap)
+    if bound is None:
+        r.fail(key, "no guard on the interval's `last` dominates AsciiBitmap::set", facts.loc(fn))
+    elif bound <= cap - 1:
+        r.ok(key, "`last` <= %d on the path to set()" % bound)
+    else:
+        r.fail(key, "the guard lets `last` reach %d but the bitmap has %d bits: set(%d) indexes past the array (panic while compiling)" % (
+            bound, cap, bound), facts.loc(fn))
+    return r
